@@ -269,9 +269,16 @@ func verifRunC05(c *verifsim.Ctx) {
 				time.Sleep(d)
 			}
 		}
-		// force a checkpoint that equals the observed state
+		// the last checkpoint equals the observed state: every operation above
+		// ran in its own lock/unlock session, and a modifying unlock writes; in
+		// half of the cycles one more write is forced first
 		st.Lock()
-		st.Set("verif-mark", cy)
+		forced := c.Draw("force-write-before-reload", 2) == 0
+		if forced {
+			st.Set("verif-mark", cy)
+		} else {
+			c.Count("probe:reload-of-the-checkpoint-the-operations-left")
+		}
 		obs1 := verifObserveRest(st)
 		st.Unlock()
 		payload := append([]byte(nil), be.last...)
@@ -326,6 +333,23 @@ func verifRunC05(c *verifsim.Ctx) {
 			return out
 		}
 		obs1, obs2 = mask(obs1), mask(obs2)
+		if !forced {
+			// Task.SetProgress deliberately does not ask for a checkpoint unless
+			// the progress is final: unfinished progress may lag in a checkpoint
+			// that no other write refreshed
+			for _, o := range [][]string{obs1, obs2} {
+				for i, l := range o {
+					if j := strings.Index(l, " prog="); j >= 0 {
+						k := strings.Index(l[j+1:], " ")
+						if k < 0 {
+							o[i] = l[:j]
+						} else {
+							o[i] = l[:j] + l[j+1+k:]
+						}
+					}
+				}
+			}
+		}
 		if len(obs1) != len(obs2) {
 			c.Violate("C05/reload-differs", "observation length differs %d vs %d", len(obs1), len(obs2))
 		} else {
